@@ -262,10 +262,11 @@ func verifC03SetAlias() {
 	vAssert("derived-agrees", c03Agrees(sets[1], models[1], r))
 	first := 0
 	for step := 0; step < muts; step++ {
-		i := step % 2
-		if vTier() > 0 || step == 0 {
+		// the first mutation picks a set, the following ones alternate
+		i := first
+		if step == 0 {
 			i = vChoice("set", 2)
-		} else if step == 1 {
+		} else if step%2 == 1 {
 			i = 1 - first
 		}
 		if step == 0 {
